@@ -139,6 +139,30 @@ var c14Codec = probe.Define("C14", "codec", func(t *rapid.T) c14In {
 				}
 			}
 		}
+		// A value is shortened and restored using what the getter handed out: the argument of the setter lies in the packet's own
+		// storage (v = GetAttr(t).GetValue(); SetAttr(t, v[:n])) - the packet then holds those n octets.
+		for _, a := range e.Attrs {
+			if (a.Type != model.AT_RES || len(a.Value) < 5) && (a.Type != model.AT_KDF_INPUT || len(a.Value) < 2) {
+				continue
+			}
+			n := len(a.Value) - 1
+			if a.Type == model.AT_RES && n < 4 {
+				continue
+			}
+			got, err := ak.GetAttr(eap.EapAkaPrimeAttrType(a.Type))
+			if err != nil || len(got.GetValue()) != len(a.Value) {
+				return probe.Fail("GetAttr(%d): %v", a.Type, err)
+			}
+			if err := probe.Try(func() error { return ak.SetAttr(eap.EapAkaPrimeAttrType(a.Type), got.GetValue()[:n]) }); err != nil {
+				return probe.Fail("SetAttr(%d) with the first %d octets of the value the getter handed out: %v", a.Type, n, err)
+			}
+			if g2, err := ak.GetAttr(eap.EapAkaPrimeAttrType(a.Type)); err != nil || !bytes.Equal(g2.GetValue(), a.Value[:n]) {
+				return probe.Fail("attribute %d set to the first %d octets of its own value (a slice of what the getter handed out) reads back as %x, want %x", a.Type, n, g2.GetValue(), []byte(a.Value[:n]))
+			}
+			if err := probe.Try(func() error { return ak.SetAttr(eap.EapAkaPrimeAttrType(a.Type), append([]byte(nil), a.Value...)) }); err != nil {
+				return probe.Fail("SetAttr(%d): %v", a.Type, err)
+			}
+		}
 		le = &eap.EAP{Code: eap.EapCode(e.Code), Identifier: e.Identifier, EapTypeData: ak}
 	} else {
 		var err error
